@@ -144,3 +144,31 @@ def bound_typevar_nullable_except_at_codec_root(v):
     f = v.get("facts", {})
     return (f.get("type_kinds") == ["tv"] and f.get("input_is_none") is True and v.get("sig", "").startswith("decode-disagree")
             and "raise->ok" in v.get("sig", ""))
+
+
+_PINNED = {}
+
+
+def _pinned_inputs(fid):
+    if fid not in _PINNED:
+        import json
+        import os
+        path = os.path.join(os.path.dirname(os.path.dirname(os.path.abspath(__file__))), "known_findings.json")
+        _PINNED[fid] = next((set(k.get("inputs", ())) for k in json.load(open(path)).get("findings", []) if k.get("id") == fid), set())
+    return _PINNED[fid]
+
+
+@predicate
+def user_module_named_like_a_pinned_global_of_the_code_generator(v):
+    """F50: a user's top-level module whose name equals a global of the code generator's module is shadowed in the
+    generated namespace. Known for the names pinned in known_findings.json only (specific inputs)."""
+    f = v.get("facts", {})
+    return f.get("scenario") == "module-name" and f.get("module_name") in _pinned_inputs("F50")
+
+
+@predicate
+def user_module_named_like_a_pinned_local_of_generated_code(v):
+    """F51: a user's top-level module whose name equals a parameter / local variable of the generated functions is shadowed
+    there. Known for the names pinned in known_findings.json only (specific inputs)."""
+    f = v.get("facts", {})
+    return f.get("scenario") == "module-name" and f.get("module_name") in _pinned_inputs("F51")
